@@ -27,7 +27,7 @@ Content model
     ``Content(version, null, well, curves, params, other, frames, order)``
 Generation
     ``random_content(rng, **opts) -> Content``
-    ``random_layout(rng, wrap=None, **opts) -> Layout``
+    ``random_layout(rng, wrap=None, noise=None) -> Layout``     ``plain_layout(wrap=False, eol='\n') -> Layout``
     ``render(content, layout) -> str``        deterministic for a given (content, layout)
     ``generate(rng, **opts) -> (text, Content)``      one random file (the layout is in ``content.last_layout``)
     ``renderings(rng, content, k=4) -> [(text, Layout)]``   k layouts of one content, >= 1 wrapped and >= 1 unwrapped
@@ -540,6 +540,13 @@ def random_layout(rng, wrap=None, noise=None):
         lead_noise=(not quiet) and rng.random() < 0.4,
         wrap_text=rng.choice(['YES', 'YES', 'Yes', 'yes'] if wrap else ['NO', 'NO', 'No', 'no']),
         col_width=rng.choice([8, 10, 12, 16]))
+
+
+def plain_layout(wrap=False, eol='\n', seed=0):
+    """A tidy layout: no comments or blank lines, single-blank separation, fixed-point numbers."""
+    return Layout(wrap=wrap, eol=eol, sep='space', seed=seed, comment_p=0.0, blank_p=0.0, pad_max=1, title_style=1,
+                  num_style='fixed', final_eol=True, a_heading='names', lead_noise=False, wrap_text='YES' if wrap else 'NO',
+                  col_width=12)
 
 
 TITLES = {'V': ['~V', '~Version Information', '~VERSION INFORMATION SECTION', '~Version Information Block'],
